@@ -77,3 +77,42 @@ func vsDescribeBus(g, old *VGhost) string {
 	}
 	return strings.Join(out, " ")
 }
+
+// vsRelDiff: differences between two post-states for the relational DD/FD
+// obligations (kind DDFD: IX/IY exchanged back; NI-DD / NI-FD: the other index
+// register is ignored).
+func vsRelDiff(kind string, c1 *CPU, g1 *VGhost, c2 *CPU, g2 *VGhost, pc uint16) string {
+	var out []string
+	a, b := *c1, *c2
+	switch kind {
+	case "DDFD":
+		b.IX, b.IY = b.IY, b.IX
+	case "NI-DD":
+		a.IY, b.IY = 0, 0
+	case "NI-FD":
+		a.IX, b.IX = 0, 0
+	}
+	if a.States != b.States || a.HALT != b.HALT {
+		out = append(out, "registers: ["+vsDescribe(&a)+"] vs ["+vsDescribe(&b)+"]")
+	}
+	if g1.LogN != g2.LogN {
+		out = append(out, fmt.Sprintf("number of accesses %d vs %d", g1.LogN, g2.LogN))
+	}
+	var l1, l2 []string
+	for i := uint8(0); i != g1.LogN; i++ {
+		l1 = append(l1, fmt.Sprintf("%08x", g1.Log[i]))
+	}
+	for i := uint8(0); i != g2.LogN; i++ {
+		l2 = append(l2, fmt.Sprintf("%08x", g2.Log[i]))
+	}
+	if strings.Join(l1, " ") != strings.Join(l2, " ") {
+		out = append(out, "access sequence ["+strings.Join(l1, " ")+"] vs ["+strings.Join(l2, " ")+"]")
+	}
+	for i := 0; i < 65536; i++ {
+		if g1.Mem[i] != g2.Mem[i] && !(uint16(i) == pc && kind == "DDFD" && g1.Mem[i] == 0xdd && g2.Mem[i] == 0xfd) {
+			out = append(out, fmt.Sprintf("mem[%04x] %02x vs %02x", i, g1.Mem[i], g2.Mem[i]))
+			break
+		}
+	}
+	return strings.Join(out, "; ")
+}
